@@ -168,8 +168,8 @@ def g_conv(rng):
 
 
 def g_conv1d(rng):
-    a = rarr(rng, ["int32", "float32", "float64"], lo=-3, hi=4)
-    k = rng.choice([1, 2, 3, 5, 8])
+    a = rarr(rng, ["int32", "float32", "float64", "float64", "float64"], lo=-3, hi=4)   # float64: the weights then need no conversion
+    k = rng.choice([1, 2, 3, 3, 5, 8])
     # fractional weights too (quarters: exact in every float type); with an integer image the documented conversion of the
     # weights to the image's dtype must be the same on the contiguous fast path and on the generic path
     q = 0.25 if rng.random() < 0.5 else 1
